@@ -13,6 +13,7 @@ scratch package for an evolved model there).
 import enum
 import math
 
+import json
 import attrs
 
 LIMIT = 10 ** 9
@@ -280,7 +281,19 @@ class Package:
         return self._attr_cache[cls]
 
     # -- building Python objects from abstract objects through the public constructors -----------
-    def build(self, o, ann=None):
+    def build(self, o, ann=None, memo=None):
+        """memo (a dict): equal abstract instances / containers are built ONCE and the one Python object is used at every
+        place they occur (sub-object sharing, as in Range(start=p, end=p))."""
+        if memo is not None and o["k"] in ("inst", "arr", "map"):
+            key = json.dumps([o, repr(ann)], sort_keys=True, default=str)
+            if key in memo:
+                return memo[key]
+            v = self._build(o, ann, memo)
+            memo[key] = v
+            return v
+        return self._build(o, ann, memo)
+
+    def _build(self, o, ann=None, memo=None):
         k = o["k"]
         if k in ("null", "bool", "int", "big", "str"):
             v = decode(o)
@@ -299,11 +312,11 @@ class Package:
         if k == "any":
             return decode(o["j"])
         if k == "arr":
-            return [self.build(x, _elem_ann(ann)) for x in seq(o["a"])]
+            return [self.build(x, _elem_ann(ann), memo) for x in seq(o["a"])]
         if k == "tup":
-            return tuple(self.build(x) for x in seq(o["a"]))
+            return tuple(self.build(x, None, memo) for x in seq(o["a"]))
         if k == "map":
-            return {key: self.build(x, _map_val_ann(ann)) for key, x in fun(o["f"]).items()}
+            return {key: self.build(x, _map_val_ann(ann), memo) for key, x in fun(o["f"]).items()}
         if k == "inst":
             if o["cls"]["kind"] == "literal":
                 cls = _attrs_class_in(ann)       # an anonymous literal class is found through the annotation that holds it
@@ -317,7 +330,7 @@ class Package:
                 a = amap.get(norm(pname))
                 if a is None:
                     raise LookupError("class %s has no attribute for property %s" % (cls.__name__, pname))
-                kwargs[a.name] = self.build(val, a.type)
+                kwargs[a.name] = self.build(val, a.type, memo)
             return cls(**kwargs)
         raise ValueError("not an abstract object: %r" % (o,))
 
